@@ -177,6 +177,22 @@ def create_marker_cache_from_specified_markers(
         missing_reference_markers = missing_reference_markers.union(
             marker_set-reference_gene_set)
 
+    # a query that shares no gene at all with the marker lookup
+    # cannot be mapped (even if no parent in this taxonomy happens
+    # to need markers, this signals mismatched gene identifiers)
+    all_markers = set()
+    for parent_node in marker_lookup:
+        if parent_node in ('metadata', 'log'):
+            continue
+        all_markers = all_markers.union(set(marker_lookup[parent_node]))
+    if len(all_markers) > 0 \
+            and len(all_markers.intersection(query_gene_set)) == 0:
+        msg = "No markers in the marker lookup were present in query set."
+        if log is None:
+            raise RuntimeError(msg)
+        else:
+            log.error(msg)
+
     if len(missing_reference_markers) > 0:
         missing_reference_markers = list(missing_reference_markers)
         missing_reference_markers.sort()
